@@ -88,51 +88,61 @@ def matchLocalTrail : Str → Option Nat
 
 def kwTable (l : List Str) : List (Str × Unit) := l.map fun k => (k, ())
 
-/-- the `post` group `(?:-[0-9]+)|(?:[-_\.]?(post|rev|r)[-_\.]?[0-9]*)`: what is left -/
+/-- a letter group `[-_\.]?(kw1|kw2|…)[-_\.]?[0-9]*`, optional: what is left -/
+def spelledRest (kws : List Str) (s : Str) : Str :=
+  match V.scanLetterGroup (kwTable kws) s with
+  | some (_, r) => r
+  | none => s
+
+/-- the implicit post release `-[0-9]+` -/
+def implicitRest (s : Str) : Option Str :=
+  match s with
+  | 45 :: r => (match V.optNum r with | (some _, r') => some r' | (none, _) => none)
+  | _ => none
+
+/-- the `post` group `(?:-[0-9]+)|(?:[-_\.]?(post|rev|r)[-_\.]?[0-9]*)`, optional: what is left -/
 def postRest (s : Str) : Str :=
-  let implicit : Option Str :=
-    match s with
-    | 45 :: r => (match V.optNum r with | (some _, r') => some r' | (none, _) => none)
-    | _ => none
-  match implicit with
+  match implicitRest s with
   | some r => r
-  | none =>
-    match V.scanLetterGroup (kwTable Gen.ReqTok.specPostKws) s with
-    | some (_, r) => r
-    | none => s
+  | none => spelledRest Gen.ReqTok.specPostKws s
+
+/-- the optional local label `(?:\+[a-z0-9]+(?:[-_\.][a-z0-9]+)*)?` of an alternative that has one -/
+def locRest (r : Str) : Str :=
+  match V.scanLocal r with
+  | some (some _, r') => r'
+  | _ => r
 
 /-- `(pre)?(post)?(dev)?` and, if the alternative has it, `(local)?`: what is left -/
 def suffixRest (loc : Bool) (r : Str) : Str :=
-  let r := match V.scanLetterGroup (kwTable Gen.ReqTok.specPreKws) r with
-    | some (_, r') => r'
-    | none => r
-  let r := postRest r
-  let r := match V.scanLetterGroup (kwTable Gen.ReqTok.specDevKws) r with
-    | some (_, r') => r'
-    | none => r
-  if loc then
-    match V.scanLocal r with
-    | some (some _, r') => r'
-    | _ => r
-  else r
+  let r := spelledRest Gen.ReqTok.specDevKws (postRest (spelledRest Gen.ReqTok.specPreKws r))
+  if loc then locRest r else r
+
+/-- `v?` -/
+def stripV (s : Str) : Str :=
+  match s with
+  | c :: r => if lowerAscii c == 118 then r else s
+  | [] => s
+
+/-- `(?:[0-9]+!)?[0-9]+` after the first digit run: the epoch group is given back when no digits follow the `!` -/
+def epochRest (r0 : Str) : Str :=
+  match r0 with
+  | 33 :: r1 => (match V.optNum r1 with
+                 | (some _, r2) => r2
+                 | (none, _) => r0)
+  | _ => r0
+
+/-- `\s* v? (?:[0-9]+!)? [0-9]+ (?:\.[0-9]+)*`: the release components after the first, and what is left -/
+def relScan (s0 : Str) : Option (List Nat × Str) :=
+  match V.optNum (stripV (s0.dropWhile V.isWs)) with
+  | (none, _) => none
+  | (some _, r0) => some (V.scanReleaseTail (epochRest r0).length (epochRest r0))
 
 /-- one version alternative (after its look-behind): `\s* v? (?:[0-9]+!)? [0-9]+ (?:\.[0-9]+){minRel,} …`;
 `none` = the alternative does not match here, otherwise what is left of the text -/
 def verForm (minRel : Nat) (wild loc : Bool) (s0 : Str) : Option Str :=
-  let s := s0.dropWhile V.isWs
-  let s := match s with
-    | c :: r => if lowerAscii c == 118 then r else s
-    | [] => s
-  match V.optNum s with
-  | (none, _) => none
-  | (some _, r0) =>
-    -- `(?:[0-9]+!)?[0-9]+`: the epoch group is given back when no digits follow the `!`
-    let r := match r0 with
-      | 33 :: r1 => (match V.optNum r1 with
-                     | (some _, r2) => r2
-                     | (none, _) => r0)
-      | _ => r0
-    let (tail, r) := V.scanReleaseTail r.length r
+  match relScan s0 with
+  | none => none
+  | some (tail, r) =>
     if tail.length < minRel then none
     else if wild && startsWith r [46, 42] then some (r.drop 2)
     else some (suffixRest loc r)
